@@ -12,24 +12,24 @@ ASSUMPTIONS = ["the parameter object, its synonym list and the file-value list a
                "parsec_show_help is a counting stub",
                "presence choices are symbolic indices decoded in loops with concrete counters (see harness/C39/split.c); override and default integers are plain symbolic values"]
 BOUNDS = {"quick": {"sources": "override x env(own: absent,'7','0x10') x env(synonym: absent,'12') x file(absent, own name, synonym name) x read-only = 72 combinations per type", "types": "int, size_t, string",
-                    "--mca": "3 occurrences, parameter in {p,q}, value in {v1,v2,w}"},
+                    "--mca": "3 occurrences, parameter in {p,q}, value in {v1,w}"},
           "thorough": {"same": "as quick"}}
 LINK = ["repo:parsec/class/parsec_object.c", "repo:parsec/class/parsec_list.c"]
 
 def queries(ctx):
     qs = []
     for t, tn in ((0, "int"), (1, "sizet"), (2, "string")):
-        qs.append(Q("prec_" + tn, ["prec.c"] + LINK, defs=["T=%d" % t], units=[U, "parsec/utils/mca_param_internal.h"], unwind=20, checks=["bounds", "pointer"], object_bits=12, timeout=1500,
+        qs.append(Q("prec_" + tn, ["prec.c"] + LINK, defs=["T=%d" % t], units=[U, "parsec/utils/mca_param_internal.h"], unwind=20, checks=["bounds", "pointer"], object_bits=14, timeout=1500,
                     info={"symbolic": ["override set", "PARSEC_MCA_own absent/'7'/'0x10'", "PARSEC_MCA_syn absent/'12'", "file value absent / own name / synonym name", "read-only", "override and default integer values"],
                           "enumerated": ["parameter type"],
                           "functions": ["param_lookup", "lookup_override", "lookup_env", "lookup_file", "lookup_default", "set", "parsec_mca_param_lookup_int/_sizet/_string", "parsec_mca_param_lookup_source"],
-                          "stubs": ["getenv (2-entry environment)", "parsec_show_help (counter)", "strtol/strtoll (CBMC mode)", "parsec_os_path (unreached)"],
+                          "stubs": ["getenv (2-entry environment)", "parsec_show_help (counter)", "strtol/strtoll/strstr (CBMC mode)", "parsec_os_path (unreached)"],
                           "bounds": {"combinations": 72}}))
     qs.append(Q("mca_repeated", ["mcacl.c", "repo:" + U, "repo:parsec/utils/parsec_environ.c", "repo:parsec/utils/argv.c"], defs=["K=3"], units=[UCL], unwind=40,
-                checks=["bounds", "pointer"], object_bits=12, timeout=1500,
-                info={"symbolic": ["parameter of each of 3 occurrences in {p,q}", "value of each occurrence in {v1,v2,w}"],
+                checks=["bounds", "pointer"], object_bits=14, timeout=1500,
+                info={"symbolic": ["parameter of each of 3 occurrences in {p,q}", "value of each occurrence in {v1,w}"],
                       "functions": ["process_arg", "add_to_env", "parsec_setenv_mca_param", "parsec_mca_var_env_name", "parsec_setenv", "parsec_argv_append_nosize"],
-                      "stubs": ["asprintf (CBMC mode: literals and %s)"], "bounds": {"occurrences": 3}}))
+                      "stubs": ["asprintf (CBMC mode: literals and %s)", "environ = a definite empty block, putenv (CBMC mode, unreached)"], "bounds": {"occurrences": 3}}))
     return qs
 
 def mutants(ctx):
@@ -45,4 +45,16 @@ def mutants(ctx):
         Mutant("repeated_mca_order_reversed", UCL, "rc = asprintf(&new_str, \"%s,%s\", (*values)[i], value);", "rc = asprintf(&new_str, \"%s,%s\", value, (*values)[i]);", queries=["mca_repeated"]),
     ]
 
-CLAIMED = False
+CLAIMED = True
+MANIFEST = {
+ "engine": "cbmc-src",
+ "text": "Bounded model checking of the real lookup code of parsec/utils/mca_param.c (param_lookup, lookup_override/_env/_file/_default, set; included) on a parameter with one synonym, "
+         "for int, size_t and string parameters and all 72 combinations of: override set, own-name environment variable (absent / decimal / hexadecimal text), synonym environment variable, "
+         "parameter-file value (absent / under the own name / under the synonym's name), read-only: the value and parsec_mca_param_lookup_source follow "
+         "override > environment (own name before synonym) > file > default, read-only parameters yield the default, the source file is reported for file values, repeated lookups agree, "
+         "strings are fresh copies; and of process_arg/add_to_env of mca_param_cmd_line.c with the real parsec_setenv_mca_param/parsec_setenv: three --mca occurrences over two "
+         "parameters yield one PARSEC_MCA_<param>=v1,v2,... entry per parameter, values joined with commas in order. Memory checks on.",
+ "note": "registration, file lexer, parsec_init and option parsing are outside (objects built by the harness; option parsing is C39); getenv/strtol/strstr/asprintf/environ are harness stubs "
+         "in CBMC mode; choices come from small tables (symbolic indices), override/default integers are fully symbolic.",
+ "technique": "CBMC bounded symbolic execution of the real C units + SAT (cadical), native ASan replay",
+}
